@@ -87,6 +87,14 @@ CLAIMED += [
      "technique": "Coq proof (refinement of the shared block model, inductive specification of a successful bind, invariant over block sequences) + correspondence on ~11k generated schema/target pairs per run against real EncodeBlock/DecodeBlock in both builds"},
 ]
 
+
+CLAIMED += [
+    {"id": "C03",
+     "text": "For every script of server packets (Data/Totals blocks of any schema and size incl. zero-row and empty blocks, Progress, Profile, TableColumns, Log, ProfileEvents, exception chains of any depth, EndOfStream), every revision, compression on/off, every subset and failure point of the 7 callbacks and every Result binding (typed, Auto, empty, nil): the receiver's callback trace equals the trace computed from the script alone, the bound columns hold exactly each block, Do returns nil iff EndOfStream is reached before any other terminating event, and a server exception comes back with its whole chain, every code matched by errors.Is and the top code by IsCode (6 theorems, closed).",
+     "note": COMMON_NOTE + "Compressed blocks: theorem for one frame per block (as compress.Writer emits), multi-frame blocks by correspondence only. Block/target compatibility (Infer, Conflicts, ColAuto.Infer) and codec round trip are premises. Read timeouts, cancellation and the sender/watcher goroutines are outside this model (C04/C10, C08). Extremes packets are not handled by the client (outside the property's packet list).",
+     "technique": "Coq proof (simulation of the receive loop against a script-level specification: per-packet lemma lifted by induction over the script) + extracted-model correspondence on the exact bytes sent to the real Client.Do over a scripted in-memory net.Conn + direct trace/return/columns oracle"},
+]
+
 _PENDING = "check not built yet in this tree (construction order in DESIGN.md section 11); will be claimed once its props/ file compiles"
 NOT_APPLICABLE = [(i, _PENDING) for i in
-                  ["C03", "C04", "C10", "C12"]]
+                  ["C04", "C10", "C12"]]
